@@ -36,8 +36,9 @@ impl<'a> MtHelpers<'a> {
         });
         let error_type: Type = match associated_error {
             Some(error) => parse_quote!(#error),
-            // This should never happen as the `interface` macro requires the trait to have an associated `Error` type
-            None => unreachable!(),
+            // The missing `Error` type is reported by `InterfaceInput::new`. Fall back to the
+            // expected name, so the diagnostic is emitted instead of panicking here.
+            None => parse_quote!(Error),
         };
 
         Self {
